@@ -128,6 +128,7 @@ func (g *gen) filePart(pInvalid int) *Part {
 	p := g.part(40, pInvalid, false)
 	p.P, p.Set, p.NestX, p.EmbA, p.EmbS, p.Iface, p.BadIface, p.Share = nil, nil, nil, nil, nil, nil, false, false
 	p.SM, p.MM, p.MA, p.Pairs = nil, nil, nil, nil
+	p.Arr, p.When, p.Peers, p.PM = nil, nil, nil, nil
 	if p.NestS == nil && p.NestN == nil {
 		p.NestS = nil
 	}
